@@ -368,6 +368,32 @@ def store_facts(ast):
             if rec and rec[0].get("bases"):
                 out["bases"][tname] = [b["type"]["qualType"] for b in rec[0]["bases"]]
                 break
+    # how the stores grow: member functions of the standard-container base that each store template calls
+    out["growth"] = {}
+    for tname in ("stable_farm", "obj_sequence", "obj_list", "ref_sequence"):
+        calls = set()
+        for n, p in ast.find("ClassTemplateDecl", tname):
+            for m, _ in walk(n):
+                k = m.get("kind")
+                nm = None
+                if k in ("MemberExpr", "UnresolvedMemberExpr"):
+                    nm = m.get("name")
+                elif k == "CXXDependentScopeMemberExpr":
+                    nm = m.get("member")
+                elif k == "DependentScopeDeclRefExpr" or k == "UnresolvedLookupExpr":
+                    nm = m.get("name")
+                if nm in ("emplace_front", "emplace_back", "emplace_after", "push_back", "push_front", "insert", "insert_after", "erase",
+                          "erase_after", "pop_back", "pop_front", "clear", "resize", "reserve", "emplace", "swap", "assign", "shrink_to_fit",
+                          "remove", "sort", "splice_after", "reverse", "unique", "merge"):
+                    calls.add(nm)
+            # using-declarations that re-export a mutator of the private base
+            for m, _ in walk(n):
+                if m.get("kind") in ("UsingDecl", "UnresolvedUsingValueDecl"):
+                    nm = (m.get("name") or "").split("::")[-1]
+                    if nm in ("push_back", "resize", "insert", "erase", "clear", "pop_back", "emplace_back", "push_front", "reserve", "assign", "swap"):
+                        calls.add("using:" + nm)
+            break
+        out["growth"][tname] = sorted(calls)
     for n, p in ast.find("CXXRecordDecl", "string_pool"):
         if n.get("bases"):
             out["bases"]["string_pool"] = [b["type"].get("desugaredQualType", b["type"]["qualType"]) for b in n["bases"]]
